@@ -15,12 +15,16 @@ use refmodel::layout::{self as rl, layout, Kind, ENCS};
 use refmodel::notes::walk_notes;
 use serde_json::{json, Value};
 
-fn offsets(l: u64) -> [u64; 12] {
-    [0, 1, 63, 64, l - 2, l - 1, l, l + 1, (1 << 32) - 1, 1 << 63, u64::MAX, l / 2]
+fn offsets(l: u64) -> [u64; 15] {
+    // l - 12 / l - 24: a range that ends at EOF and holds exactly one compression header
+    [0, 1, 63, 64, l - 2, l - 1, l, l + 1, (1 << 32) - 1, 1 << 63, u64::MAX, l / 2, l - 12, l - 24, l - 25]
 }
-fn sizes(l: u64, off: u64) -> [u64; 10] {
-    [0, 1, 2, l.wrapping_sub(off).wrapping_sub(1), l.wrapping_sub(off), l.wrapping_sub(off).wrapping_add(1), (1 << 32) - 1, u64::MAX.wrapping_sub(off), u64::MAX.wrapping_sub(off).wrapping_add(1), 24]
+fn sizes(l: u64, off: u64) -> [u64; 12] {
+    [0, 1, 2, l.wrapping_sub(off).wrapping_sub(1), l.wrapping_sub(off), l.wrapping_sub(off).wrapping_add(1), (1 << 32) - 1, u64::MAX.wrapping_sub(off), u64::MAX.wrapping_sub(off).wrapping_add(1), 24, 12, 25]
 }
+/// variants of the file the caller-supplied headers are used on: (e_type, section header table announced)
+const BASES: [(u16, bool, &str); 4] = [(3, true, "ET_DYN"), (4, true, "ET_CORE"), (4, false, "ET_CORE without section headers"), (1, false, "ET_REL without section headers")];
+const P_TYPES: [u32; 4] = [abi::PT_LOAD, abi::PT_NOTE, abi::PT_DYNAMIC, abi::PT_NULL];
 const SH_TYPES: [u32; 7] = [abi::SHT_PROGBITS, abi::SHT_NOBITS, abi::SHT_STRTAB, abi::SHT_REL, abi::SHT_RELA, abi::SHT_NOTE, abi::SHT_DYNAMIC];
 const SH_FLAGS: [u64; 4] = [0, abi::SHF_COMPRESSED as u64, (abi::SHF_COMPRESSED | abi::SHF_ALLOC) as u64, abi::SHF_ALLOC as u64];
 
@@ -102,8 +106,8 @@ fn check_notes(what: &str, ctx: &str, img: &[u8], a: usize, b: usize, align: usi
 /// Caller-supplied headers over the geometry alphabet, all views.
 struct Crafted;
 impl Crafted {
-    fn dims() -> [u64; 6] {
-        [4, 12, 10, 7, 4, MAGICS.len() as u64]
+    fn dims() -> [u64; 7] {
+        [4, 15, 12, 7, 4, MAGICS.len() as u64, BASES.len() as u64]
     }
 }
 /// contents put at the start of the designated range: formats a reader might be tempted to
@@ -122,18 +126,31 @@ const MAGICS: [&[u8]; 10] = [
     b"\xff\xff\xff\xff\xff\xff\xff\xff\xff\xff\xff\xff\xff\xff\xff\xff\xff\xff\xff\xff\xff\xff\xff\xff",
 ];
 fn base_image(enc: rl::Enc) -> Vec<u8> {
-    let (b, _) = tiny_full(enc, TableOrder::TablesFirst);
-    let mut v = b.bytes;
-    // distinct content everywhere beyond the header tables so that a shifted slice differs
-    let start = v.len().min(1700);
-    for i in start..v.len() {
-        v[i] ^= 0;
+    static CACHE: std::sync::OnceLock<Vec<Vec<u8>>> = std::sync::OnceLock::new();
+    let all = CACHE.get_or_init(|| ENCS.iter().map(|e| tiny_full(*e, TableOrder::TablesFirst).0.bytes).collect());
+    all[ENCS.iter().position(|e| *e == enc).unwrap()].clone()
+}
+fn base_variant(enc: rl::Enc, which: usize) -> Vec<u8> {
+    let mut v = base_image(enc);
+    let (et, shdrs, _) = BASES[which];
+    let fi = |n: &str| {
+        let l = layout(Kind::Ehdr, enc.class);
+        let f = &l.fields[rl::field_index(Kind::Ehdr, enc.class, n)];
+        (f.off, f.width)
+    };
+    let (o, w) = fi("e_type");
+    rl::put(&mut v, o, w, enc.order, et as u64);
+    if !shdrs {
+        for n in ["e_shoff", "e_shnum", "e_shstrndx"] {
+            let (o, w) = fi(n);
+            rl::put(&mut v, o, w, enc.order, 0);
+        }
     }
     v
 }
 impl Space for Crafted {
     fn name(&self) -> String {
-        "caller-supplied SectionHeader / ProgramHeader: offset in {0,1,63,64,L-2,L-1,L,L+1,2^32-1,2^63,2^64-1,L/2} x size in {0,1,2,L-off-1,L-off,L-off+1,2^32-1,2^64-off-1,2^64-off,24} x sh_type in {PROGBITS,NOBITS,STRTAB,REL,RELA,NOTE,DYNAMIC} x flags in {0,COMPRESSED,COMPRESSED|ALLOC,ALLOC} x 4 encodings x contents at the start of the range in {as generated, ZLIB+size, zlib, gzip, zstd, xz, ELF, ar magics, zeros, ones}; p_memsz in {0, filesz+7}; all typed views".into()
+        "caller-supplied SectionHeader / ProgramHeader on {ET_DYN, ET_CORE, ET_CORE without section headers, ET_REL without section headers} files: offset in {0,1,63,64,L-2,L-1,L,L+1,2^32-1,2^63,2^64-1,L/2,L-12,L-24,L-25} x size in {0,1,2,L-off-1,L-off,L-off+1,2^32-1,2^64-off-1,2^64-off,24,12,25} x sh_type in {PROGBITS,NOBITS,STRTAB,REL,RELA,NOTE,DYNAMIC} x flags in {0,COMPRESSED,COMPRESSED|ALLOC,ALLOC} x 4 encodings x contents at the start of the range in {as generated, ZLIB+size, zlib, gzip, zstd, xz, ELF, ar magics, zeros, ones}; p_memsz in {0, filesz, filesz+7}, p_type in {LOAD, NOTE, DYNAMIC, NULL}; all typed views".into()
     }
     fn size(&self) -> u64 {
         product(&Self::dims())
@@ -144,12 +161,17 @@ impl Space for Crafted {
         let img = base_image(enc);
         let l = img.len() as u64;
         let off = offsets(l)[d[1] as usize];
-        json!({"encoding": enc.name(), "file_len": l, "offset": format!("{:#x}", off), "size": format!("{:#x}", sizes(l, off)[d[2] as usize]), "sh_type": SH_TYPES[d[3] as usize], "sh_flags": SH_FLAGS[d[4] as usize], "content_at_range_start": hex(MAGICS[d[5] as usize])})
+        json!({"encoding": enc.name(), "file_len": l, "offset": format!("{:#x}", off), "size": format!("{:#x}", sizes(l, off)[d[2] as usize]), "sh_type": SH_TYPES[d[3] as usize], "sh_flags": SH_FLAGS[d[4] as usize], "content_at_range_start": hex(MAGICS[d[5] as usize]), "file": BASES[d[6] as usize].2})
     }
     fn run(&self, idx: u64, out: &mut Outcome) {
         let d = unmix(idx, &Self::dims());
         let enc = ENCS[d[0] as usize];
-        let mut img = base_image(enc);
+        if d[6] != 0 && d[5] != 0 {
+            // the file variants are combined with the generated contents only
+            out.count("file_variant_x_content_variant_not_needed");
+            return;
+        }
+        let mut img = base_variant(enc, d[6] as usize);
         let l = img.len() as u64;
         let off = offsets(l)[d[1] as usize];
         let size = sizes(l, off)[d[2] as usize];
@@ -176,7 +198,7 @@ impl Space for Crafted {
             Ok(f) => f,
             Err(e) => panic!("base image does not parse: {e}"),
         };
-        let ctx = format!("{} shdr{{type {ty}, flags {flags:#x}, offset {off:#x}, size {size:#x}, addralign {align}}} on a {l}-byte buffer", enc.name());
+        let ctx = format!("{} shdr{{type {ty}, flags {flags:#x}, offset {off:#x}, size {size:#x}, addralign {align}}} on a {l}-byte {} buffer", enc.name(), BASES[d[6] as usize].2);
         let want = designated_section(enc, img.len(), &h);
         let mut dig = Fnv::new();
         // section_data
@@ -267,15 +289,15 @@ impl Space for Crafted {
             }
         }
         // segments: p_filesz bounds the data, p_memsz never does
-        for memsz in [0u64, size.wrapping_add(7)] {
-            let p = ProgramHeader { p_type: abi::PT_LOAD, p_offset: off, p_vaddr: 0, p_paddr: 0, p_filesz: size, p_memsz: memsz, p_flags: 4, p_align: 4 };
+        for (memsz, p_type) in [(0u64, P_TYPES[(d[3] % 4) as usize]), (size.wrapping_add(7), P_TYPES[((d[3] + 1) % 4) as usize]), (size, abi::PT_LOAD)] {
+            let p = ProgramHeader { p_type, p_offset: off, p_vaddr: 0, p_paddr: 0, p_filesz: size, p_memsz: memsz, p_flags: 4, p_align: 4 };
             let end = off as u128 + size as u128;
             let want = if end <= img.len() as u128 { Some((off as usize, end as usize)) } else { None };
             out.transitions += 1;
             match subject(|| f.segment_data(&p).ok()) {
                 Err(m) => out.violate(format!("panic:ElfBytes::segment_data in {}", panic_site(&m)), m),
                 Ok(r) => {
-                    let c = format!("{} phdr{{offset {off:#x}, filesz {size:#x}, memsz {memsz:#x}}} on a {l}-byte buffer", enc.name());
+                    let c = format!("{} phdr{{type {p_type}, offset {off:#x}, filesz {size:#x}, memsz {memsz:#x}}} on a {l}-byte {} buffer", enc.name(), BASES[d[6] as usize].2);
                     check_slice("ElfBytes::segment_data", &c, &img, r, want, out);
                 }
             }
@@ -464,6 +486,109 @@ impl Space for NameTable {
     }
 }
 
+/// String tables reached through a symbol table's sh_link: `symbol_table()`,
+/// `dynamic_symbol_table()` and `find_common_data()` hand out exactly the byte range of the section
+/// the link names - whichever section that is, header 0 included.
+struct Linked;
+impl Space for Linked {
+    fn name(&self) -> String {
+        "string tables behind sh_link: .symtab / .dynsym of the tiny-full object with sh_link = every section index 0..=nsec+1 x header 0 {all zero, carrying a range [100,137), carrying the section count as with e_shnum = 0} x 4 encodings; the table handed out by symbol_table / dynamic_symbol_table / find_common_data is compared entry by entry (content and pointer) with the linked section's byte range".into()
+    }
+    fn size(&self) -> u64 {
+        4 * 2 * 3 * 24
+    }
+    fn describe(&self, idx: u64) -> Value {
+        let d = unmix(idx, &[4, 2, 3, 24]);
+        let h0 = ["all zero", "range [100,137)", "sh_size = section count"][d[2] as usize];
+        json!({"encoding": ENCS[d[0] as usize].name(), "table": if d[1] == 0 { ".symtab" } else { ".dynsym" }, "header_0": h0, "sh_link": d[3]})
+    }
+    fn run(&self, idx: u64, out: &mut Outcome) {
+        let d = unmix(idx, &[4, 2, 3, 24]);
+        let enc = ENCS[d[0] as usize];
+        let (mut b, _) = tiny_full(enc, TableOrder::TablesFirst);
+        let nsec = b.shnum as u64;
+        let link = d[3];
+        if link > nsec + 1 {
+            out.count("beyond_nsec+1_not_needed");
+            return;
+        }
+        let which = if d[1] == 0 { crate::skeleton::idx::SYMTAB } else { crate::skeleton::idx::DYNSYM };
+        b.patch(&format!("shdr[{which}].sh_link"), link);
+        match d[2] {
+            1 => {
+                b.patch("shdr[0].sh_offset", 100);
+                b.patch("shdr[0].sh_size", 37);
+            }
+            2 => b.patch("shdr[0].sh_size", nsec),
+            _ => {}
+        }
+        let img = &b.bytes;
+        // reference: the linked section's raw range (type and flags of the target are not interpreted
+        // on this path; NOBITS / SHF_COMPRESSED targets are left unjudged)
+        let shl = layout(Kind::Shdr, enc.class);
+        let fi = |n: &str| rl::field_index(Kind::Shdr, enc.class, n);
+        let target: Option<(usize, usize, bool)> = if link < nsec {
+            let v = rl::decode(Kind::Shdr, enc, img, b.shoff + link as usize * shl.size);
+            let (o, z) = (v[fi("sh_offset")] as u128, v[fi("sh_size")] as u128);
+            let odd = v[fi("sh_type")] == abi::SHT_NOBITS as u64 || v[fi("sh_flags")] & abi::SHF_COMPRESSED as u64 != 0;
+            if o + z <= img.len() as u128 {
+                Some((o as usize, (o + z) as usize, odd))
+            } else {
+                None
+            }
+        } else {
+            None
+        };
+        let ctx = format!("{} {} with sh_link {} (header 0: {})", enc.name(), if d[1] == 0 { ".symtab" } else { ".dynsym" }, link, ["all zero", "range [100,137)", "sh_size = section count"][d[2] as usize]);
+        let probe = |st: &elf::string_table::StringTable<'_>, range: (usize, usize), what: &str, out: &mut Outcome| {
+            let (a, z) = range;
+            let bytes = &img[a..z];
+            for o in 0..(z - a).min(48) + 1 {
+                let want: Option<&[u8]> = if o < bytes.len() { bytes[o..].iter().position(|x| *x == 0).map(|e| &bytes[o..o + e]) } else { None };
+                let got = st.get_raw(o).ok();
+                if got != want {
+                    out.violate(format!("wrong-content:{what} string table"), format!("{ctx}: entry at table offset {o} is {:?}, the linked section [{a}, {z}) holds {:?}", got.map(hex), want.map(hex)));
+                    return;
+                }
+                if let Some(g) = got {
+                    if !g.is_empty() && ptr_off(img, g) != a + o {
+                        out.violate(format!("wrong-place:{what} string table"), format!("{ctx}: string at table offset {o} lies at buffer offset {} instead of {}", ptr_off(img, g), a + o));
+                        return;
+                    }
+                }
+            }
+        };
+        out.transitions += 2;
+        let r = subject(|| {
+            let f = ElfBytes::<AnyEndian>::minimal_parse(img).ok()?;
+            let direct = if d[1] == 0 { f.symbol_table() } else { f.dynamic_symbol_table() };
+            let common = f.find_common_data();
+            Some((direct.ok().flatten().map(|x| x.1), common.ok().and_then(|c| if d[1] == 0 { c.symtab_strs } else { c.dynsyms_strs })))
+        });
+        match r {
+            Err(m) => out.violate(format!("panic:symbol table accessors in {}", panic_site(&m)), m),
+            Ok(None) => out.count("does_not_open"),
+            Ok(Some((direct, common))) => {
+                for (st, what) in [(direct, if d[1] == 0 { "symbol_table" } else { "dynamic_symbol_table" }), (common, "find_common_data")] {
+                    match (st, target) {
+                        (Some(st), Some((a, z, false))) => {
+                            probe(&st, (a, z), what, out);
+                            out.nontrivial(idx ^ ((a as u64) << 20));
+                        }
+                        (Some(st), None) => {
+                            // nothing is designated: no string may come out of the table
+                            if (0..64).any(|o| st.get_raw(o).map(|s| !s.is_empty()).unwrap_or(false)) {
+                                out.violate(format!("undesignated:{what} string table"), format!("{ctx}: strings are handed out although the link names no section inside the file"));
+                            }
+                        }
+                        _ => {}
+                    }
+                }
+            }
+        }
+    }
+}
+
 pub fn build(_tier: Tier) -> CheckDef {
     let mut sks = tiny_skeletons();
     sks.extend(small_shapes());
@@ -477,10 +602,10 @@ pub fn build(_tier: Tier) -> CheckDef {
         level: "model_checking",
         rule: "complete enumeration of the range-geometry alphabet (every combination of offset, size, type and flags, incl. zero-length, EOF-touching, one-past-EOF and overflowing ranges) for caller-supplied headers, and every real section/segment of the generated and sample files; each returned slice is compared by POINTER and length with the reference-computed designated range (never by content only). non-trivial = geometry whose range fits".into(),
         assumptions: vec!["relocation and dynamic views expose no slice; their entries are compared with a reference decode of the designated range".into()],
-        spaces: vec![Box::new(Crafted), Box::new(InPlace { sks }), Box::new(NameTable)],
+        spaces: vec![Box::new(Crafted), Box::new(InPlace { sks }), Box::new(NameTable), Box::new(Linked)],
         abort_is_violation: false,
         hang_is_violation: false,
         exhaustive: true,
-        bounds: json!({"geometry": "12 offsets x 10 sizes x 7 types x 4 flag sets x 4 encodings"}),
+        bounds: json!({"geometry": "15 offsets x 12 sizes x 7 types x 4 flag sets x 4 encodings x (10 contents | 4 file variants)"}),
     }
 }
